@@ -74,7 +74,9 @@ class C07(Check):
             "(h) element kinds chained out of order, other key encodings, over/under-long messages. "
             "An execution is distinct by (part, corrupted element and field, verdict, failing element).")
     assumptions = [
-        "key and payload bytes are seeded; ECDSA signatures are deterministic (RFC 6979 via OpenSSL)",
+        "key and payload bytes are seeded; ECDSA signatures are deterministic (RFC 6979 via OpenSSL); "
+        "DER lengths of signatures and certificates (70..72 / ~330 bytes) depend on the seeded values, so "
+        "the number of byte positions, not the rule, varies by a few executions between seeds",
         "the root of trust is not an element: its own validity period and self-signature do not "
         "enter the verdict (the statement's iff lists conditions on elements only)",
         "X.509 links between certificates are not restricted to P-256 by the statement; only the "
